@@ -35,6 +35,6 @@ s = open(p).read()
 begin, end = "<!-- SEEDTABLE BEGIN -->", "<!-- SEEDTABLE END -->"
 if begin not in s:
     s += f"\n\n## 10. Seeded changes and the checks that catch them\n\nEach change was written by a fresh sub-agent that was given only the text of the property and a scratch\nworktree of /repo; it was kept only after `tools/seedeval.py` confirmed that the patch applies, the\ndemonstration passes without and fails with it, tbot's test-suite still passes with it, and after the\n/verif checks were run against /repo with the patch applied (and /repo restored). Details per seed:\n`seeded/<id>/meta.json`.\n\n{begin}\n{end}\n"
-s = re.sub(re.escape(begin) + r".*?" + re.escape(end), begin + "\n" + table + "\n" + end, s, flags=re.S)
+s = re.sub(re.escape(begin) + r".*?" + re.escape(end), lambda _m: begin + "\n" + table + "\n" + end, s, flags=re.S)
 open(p, "w").write(s)
 print(len(rows), "seeds")
